@@ -7,7 +7,12 @@ namespace DriverGL
 
 def opJ (j : Json) : R GL.Op := do
   match ← strF j "o" with
-  | "group" => pure (.group (← valJ (← fld j "d")) (← valJ (← fld j "k")))
+  | "group" => do
+    let d ← argJ (← fld j "d")
+    let k ← argJ (← fld j "k")
+    match d, k with
+    | .val d, .val k => pure (.group d k)
+    | _, _ => pure (.groupNan d k)
   | "group_list" => pure (.groupList (← valsJ (← fld j "ds")) (← valJ (← fld j "k")))
   | "append" => pure (.append (← valJ (← fld j "v")))
   | "update" => pure (.update (← dictJ (← fld j "d")))
